@@ -143,6 +143,9 @@ def page_text(rel, page):
         L.append("copy_subdir:")
     if not L:
         L.append("")  # no metadata at all: body starts after a blank line
+    if page["n"] % 11 == 5 and not page.get("links"):
+        ind = page.get("indent") or ""
+        return "\n".join((ind + l if l else l) for l in L) + "\n"   # metadata only, no body at all
     L.append("")
     L.append("Body of page %d pgtracer%dq%s." % (page["n"], page["n"], " caf\u00e9 \u2192 na\u00efve" if page["n"] % 3 == 0 and not ACCENT_LATIN1_ONLY else ""))
     L.append("")
